@@ -14,6 +14,87 @@ SESS = ("Task-level session machine Model/Session.lean (AsyncSession, Reader, He
         "model (per-event observables + final task set) and evaluates the property statement on the implementation alone. ")
 
 CLAIMS = {
+    'C01': dict(
+        text="Model/BinCodec.lean transcribes common/message/types.py and structures.py (every integer width/signedness/byte order, bool, char, "
+             "length-prefixed and fixed strings of both charsets, records, optional records, arrays with any count type, message id byte + registry). "
+             "Proved by mutual induction over the schema type, for every schema tree, every in-domain value (explicit decidable wf) and every tail: "
+             "encode is total; decode(encode v ++ tail) consumes exactly the reported length and yields norm v; every read path reads back equal; "
+             "re-encode is identical; norm v is again in the domain; reported length = bytes produced and fixed/char fields occupy exactly their width "
+             "for EVERY encodable value (no wf hypothesis); message level round trip incl. class; unknown id raises. Tie: random schema trees built "
+             "as dynamic classes of the real library, values from the typed domain plus a malformed stream; reads, consumed length, re-encoded bytes, "
+             "reported length, error class compared with the compiled model; statement evaluated on the implementation alone.",
+        design="§5-C01", technique="Lean 4 proof by structural induction over schema trees + differential correspondence with the binary codec"),
+    'C02': dict(
+        text="Same model as C01 plus Spec/Layout.lean, an independent reference written from the documented DATATYPES table (digit-wise integers, "
+             "2-byte LE string length, space padding, count in the declared count type, presence byte, id byte + fields in declaration order). Proved "
+             "for every schema and in-domain value: encode = layout (and reports its length), decode(layout ++ tail) = value consuming exactly the "
+             "layout, both at message level, layout injective up to norm; the type-id table probed from the running library before each build equals "
+             "the documented table (decide over all 20 rows) and the array-count selection of parser.py equals the documented one. Tie: exact bytes of "
+             "the implementation vs the Lean layout on generated schemas/values; the extracted table is regenerated from the live objects each run, so a "
+             "consistent change of packer and unpacker breaks C02_table and yields the failing bytes.",
+        design="§5-C02", technique="Lean 4 proof encode = documented layout + per-run extracted type table (decide) + byte-exact differential check"),
+    'C06': dict(
+        text=SESS + "Proved for every configuration and event sequence (invariant B over all reachable states): once the close has completed both monitors "
+             "and the receive helper have ended, reader and dispatcher have ended or end at their next step; at quiescence every library task has "
+             "finished; after completion a monitor step is impossible (no heartbeat after close); no message callback starts after the transport was "
+             "closed and the close callback is entered at most once; a receive blocked at close ends with EndOfQueue. Partial: 'no unretrieved "
+             "exception' and timers of the real loop are judged by the scenario oracle (task factory + loop exception handler over three heartbeat "
+             "intervals of virtual time after the close), not by a theorem.",
+        design="§5-C06, Appendix A", technique="Lean 4 invariant proof over a task-level state machine + step-log replay correspondence"),
+    'C11': dict(
+        text=SESS + "Proved (step theorems over the same machine, any state satisfying the stated preconditions): login() writes the login request first; "
+             "an acceptance on an open session returns the session with both monitors started and the dispatcher started (callbacks only after "
+             "acceptance); any other reply, or an acceptance on a closed/closing session, sets closed in that step and raises refused; a disconnect "
+             "during the reply ends in refused; a caller cancellation closes the session before it propagates; closed never reverts and the close "
+             "completes (C05 deadlock freedom). Partial: the two-outcome statement is a family of step theorems rather than one trace theorem; the "
+             "connectors of the four application layers are exercised by the oracle only.",
+        design="§5-C11", technique="Lean 4 step theorems over the session state machine + step-log replay correspondence on login scenarios"),
+    'C13': dict(
+        text="Model/Fix.lean transcribes fix/core.py (Field, DataSegment, Group, GroupContainer, Message: find-based splitting, stop at unknown or "
+             "repeated tag, count check, first 35=, __eq__). Proved for every dictionary with pairwise distinct tags (wfDef), any nesting depth and every "
+             "message of valid values in ANY assignment order (wfMsg): encode never raises; decode yields the registered class, consumes every byte, "
+             "returns the canonical form; re-encode identical; the decoded message == the original (Group.__eq__ as repaired in /repo 02aab28; the "
+             "order-sensitive equality is kept as a decided counterexample); group = count field + instances in dictionary order; assignment order "
+             "irrelevant. Floats are opaque text tokens. Tie: generated dictionaries built as real classes in fresh processes, random messages with "
+             "shuffled assignment order; bytes, decoded collection, ==, consumed, re-encode compared with the model; statement evaluated on the implementation.",
+        design="§5-C13", technique="Lean 4 proof over FIX tag=value codec model (induction over dictionary entries) + differential correspondence"),
+    'C14': dict(
+        text="Model/FixFrame.lean transcribes FixSession.send_msg's header stamping and _prepare_complete_msg on top of the C13 codec and the C03 FIX "
+             "reader. Proved for every dictionary with the framing entries, every message, header values, sequence number, time stamp and both version "
+             "strings: the frame is 8=<ver>|9=<n>|35=<type>|…|10=<ccc>| with n the exact byte count and ccc the three-digit byte sum mod 256; the "
+             "library's reader cuts exactly that frame from any continuation, frames nothing on a proper prefix, frames exactly one message under any "
+             "segmentation; Message.from_bytes of the frame returns the sent message plus the four framing fields. Tie: real Fix44/Fix50 sessions on a "
+             "fake transport over generated dictionaries (BodyLength digit-count crossings, checksums < 100, automatic heartbeats); exact bytes vs the "
+             "model, independent length/checksum recomputation, read back through the real reader under random segmentation.",
+        design="§5-C14", technique="Lean 4 proof over FIX frame model composed with the framing and codec theorems + byte-exact differential correspondence"),
+    'C15': dict(
+        text="Model/GenSoupApp.lean: spec AST, gen (parser.py + templates at the level of abstract generated code, quirks included), evalModule (what "
+             "importing that code defines) and denote (reference semantics read from the XML documentation). Proved for every well-formed spec, each of "
+             "ITCH/OUCH/SQF, any app name and override flag: evalModule(gen s) = denote s — __all__, enums with members/values, records, messages with "
+             "id, direction, fields in order with types (datatype, fixed length, record, array element and count type) and defaults; corollaries for "
+             "field names, char enum values, defaults, array count endianness, datatype table. ElementTree parsing, chevron rendering and Python's import "
+             "are on the implementation side only. Tie: grammar-based specs -> XML -> the real CLI entry points -> import -> introspection diffed with "
+             "the model's module; values through the generated classes vs a reference codec derived from the XML (oracle).",
+        design="§5-C15", technique="Lean 4 proof gen = denote over spec AST + generator differential correspondence (generate, import, introspect)"),
+    'C18': dict(
+        text="Model/Heap.lean: object heap with owners (instance / class-level / caller buffer), operations new, read, assign, append-in-place, set "
+             "index, encode, decode, mkbuf, scribble, FIX copy/clone. Proved for every schema and EVERY history (get_field_value handing out a fresh "
+             "list, /repo fcb8b8f): ownership invariant in all reachable states; an operation about instance a leaves what any other instance reads and "
+             "encodes unchanged; observing operations change nobody; decoded/new/cloned instances consist of new cells only and share nothing with the "
+             "buffer or class-level defaults; held references stay confined to their owner. The `_partial` variants and Witness/C18 describe the "
+             "pre-repair shared class-level list. Tie: random histories over 2-5 instances of generated binary and FIX types; after each operation all "
+             "reads and encodings of all instances compared with the model (pinned to the repaired semantics) and checked for cross-instance change.",
+        design="§5-C18", technique="Lean 4 ownership-invariant proof over a heap model + differential correspondence on operation histories"),
+    'C20': dict(
+        text="Model/SyncFacade.lean: loop thread, any number of caller threads with program counters through _must_be_active / run_coroutine_threadsafe / "
+             "future.result / close_lock / closed_event / stop / join, peer events. Proved for every configuration and every interleaving: safety "
+             "invariants (event set => stop requested, lock discipline, thread exit only after the close callback, state error after close, fail-fast on "
+             "a dead executor) and termination by a strictly decreasing measure — every run has at most 14 steps per call + 6 + peer events, every "
+             "maximal run ends with all callers returned (or waiting in receive() on an open session), and once a close started the thread has exited and "
+             "the session is closed. Partial: OS scheduling, fairness and the real threading primitives are not modelled — the harness is the scheduler: "
+             "it forces model-generated maximal interleavings on the real classes statement by statement with gates and a watchdog and compares positions, "
+             "outcomes and hangs with the model; the oracle checks returned/raised, thread exited, StateError afterwards.",
+        design="§5-C20", technique="Lean 4 invariant + termination-measure proof over a thread-interleaving model + forced-interleaving correspondence"),
     'C03': dict(
         text="Model/Framing.lean transcribes Reader.on_data/_process/_process_1/stop and both deserialize() functions. Proved for all lists of "
              "well-formed packets (wfPkt) or FIX frames (wfFixFrame) and all interleavings of segments and polls: emitted is a prefix of the "
